@@ -14,6 +14,15 @@
 (*            T a new parameter) | "expruk" (the same with the factor carried under the       *)
 (*            unique key 'a1')                                                                *)
 (*   cstr     stirred-tank terms requested (feed variables feedratio, fc_<s>)                 *)
+(*   kinds may also be "ma_pk": MassAction(v * g) where g is a PARAMETER KEY shared by all     *)
+(*            such reactions (like a temperature); parameter keys (g, feedratio) are resolved  *)
+(*            in the documented order  substitution > constants object > free parameter:       *)
+(*   gsub     "none" | "num" (g := gsubval) | "expr" (g := aval * T)                           *)
+(*   fsub     "none" | "num" (feedratio := fsubval)                                            *)
+(*   consts   keys (subset of {g, feedratio}) that a constants object passed to the builder    *)
+(*            defines as plain numbers (gconst, fconst)                                        *)
+(*   symorder <<>> or a permutation of the substance list: create_odesys is handed             *)
+(*            user-made concentration symbols in a plain dict inserted in that order           *)
 (*   comp     substances carry compositions (then linear invariants are reported)             *)
 (* Accepted(cfg) is the set of combinations the builders accept (read from the code and       *)
 (* probed, see docs/notes/C04.md); C04 quantifies over accepted configurations only.          *)
@@ -33,13 +42,20 @@ VARIABLES cfg
 
 ovars == <<kvars, cfg>>
 
-Kinds == {"num", "ma_num", "str", "ma_fk", "ma_uk"}
+Kinds == {"num", "ma_num", "str", "ma_fk", "ma_uk", "ma_pk"}
 SubKinds == {"none", "num", "expr", "expruk"}
 Named(kd) == kd \in {"str", "ma_fk", "ma_uk"}        \* the constant has a key k<i>
-HasDefault(kd) == kd \in {"num", "ma_num", "ma_uk"}  \* the reaction carries a number
+HasDefault(kd) == kd \in {"num", "ma_num", "ma_uk", "ma_pk"}  \* the reaction carries a number
 TVar == "T"
 AVar == "a1"
+GVar == "g"
+PKeys == {GVar, FeedVar}                              \* parameter keys a constants object may define
 KName(i) == "k" \o ToString(i)
+Substs == { subst[j] : j \in DOMAIN subst }
+SeqSet(sq) == { sq[j] : j \in DOMAIN sq }
+HasG(cf) == \E i \in DOMAIN cf.kinds : cf.kinds[i] = "ma_pk"
+NExprSubs(cf) == Cardinality({ i \in DOMAIN cf.subs : cf.subs[i] \in {"expr", "expruk"} })
+                 + (IF cf.gsub = "expr" THEN 1 ELSE 0)
 
 IsConfig(cf, n) ==
     /\ cf.builder \in {"get_odesys", "create_odesys"}
@@ -48,8 +64,12 @@ IsConfig(cf, n) ==
     /\ Len(cf.subs) = n /\ \A i \in 1..n : cf.subs[i] \in SubKinds
     /\ Len(cf.subvals) >= n /\ \A i \in 1..n : IsQ(cf.subvals[i])
     /\ IsQ(cf.aval) /\ IsQ(cf.tval)
+    /\ cf.gsub \in {"none", "num", "expr"} /\ cf.fsub \in {"none", "num"}
+    /\ SeqSet(cf.consts) \subseteq PKeys
+    /\ IsQ(cf.gval) /\ IsQ(cf.gsubval) /\ IsQ(cf.gconst) /\ IsQ(cf.fsubval) /\ IsQ(cf.fconst)
+    /\ (cf.symorder = <<>> \/ (IsOrder(cf.symorder) /\ SeqSet(cf.symorder) = Substs))
     \* modelling bound: at most one expression substitution (one T, one a1)
-    /\ Cardinality({ i \in 1..n : cf.subs[i] \in {"expr", "expruk"} }) <= 1
+    /\ NExprSubs(cf) <= 1
 
 (* which combinations the builders accept *)
 Accepted(cf, n) ==
@@ -57,65 +77,105 @@ Accepted(cf, n) ==
     /\ IF cf.builder = "get_odesys"
        THEN \* a substitution must name a key that occurs in some rate expression
             /\ \A i \in 1..n : cf.subs[i] # "none" => Named(cf.kinds[i])
+            /\ cf.gsub # "none" => HasG(cf)
+            /\ cf.fsub # "none" => cf.cstr
             \* with include_params a purely named constant has no value to include
             /\ \A i \in 1..n : (cf.incl /\ cf.kinds[i] \in {"str", "ma_fk"}) => cf.subs[i] # "none"
+            \* get_odesys makes its own concentration symbols
+            /\ cf.symorder = <<>>
        ELSE /\ ~cf.incl
             /\ \A i \in 1..n : cf.kinds[i] # "num"
             \* parameter_expressions: modelled for string-named constants only
             /\ \A i \in 1..n : cf.subs[i] # "none" => (cf.kinds[i] = "str" /\ cf.subs[i] # "expruk")
+            \* no constants argument; parameter keys stay free
+            /\ cf.gsub = "none" /\ cf.fsub = "none" /\ cf.consts = <<>>
 
 (* status of the i-th rate constant in the generated expressions *)
 Free(cf, i) == Named(cf.kinds[i]) /\ cf.subs[i] = "none" /\ (cf.builder = "create_odesys" \/ ~cf.incl)
 AFree(cf, i) == cf.subs[i] = "expruk" /\ ~cf.incl /\ cf.builder = "get_odesys"
 
+(* resolution of a parameter key: substitution > constants > free.  A resolved key is a pair  *)
+(* <<numeric factor, exponent vector of the symbols that remain>>                             *)
+GFree(cf) == HasG(cf) /\ cf.gsub = "none" /\ GVar \notin SeqSet(cf.consts)
+FFree(cf) == cf.cstr /\ cf.fsub = "none" /\ FeedVar \notin SeqSet(cf.consts)
+GTerm(cf) == IF cf.gsub = "num" THEN <<cf.gsubval, EmptyMap>>
+             ELSE IF cf.gsub = "expr" THEN <<cf.aval, EOne(TVar)>>
+             ELSE IF GVar \in SeqSet(cf.consts) THEN <<cf.gconst, EmptyMap>>
+             ELSE <<QOne, EOne(GVar)>>
+FTerm(cf) == IF cf.fsub = "num" THEN <<cf.fsubval, EmptyMap>>
+             ELSE IF FeedVar \in SeqSet(cf.consts) THEN <<cf.fconst, EmptyMap>>
+             ELSE <<QOne, EOne(FeedVar)>>
+GEff(cf) == IF cf.gsub = "num" THEN cf.gsubval
+            ELSE IF cf.gsub = "expr" THEN QMul(cf.aval, cf.tval)
+            ELSE IF GVar \in SeqSet(cf.consts) THEN cf.gconst ELSE cf.gval
+FEff(cf) == IF cf.fsub = "num" THEN cf.fsubval
+            ELSE IF FeedVar \in SeqSet(cf.consts) THEN cf.fconst ELSE feed.F
+
 ExpectedNames == subst
-FeedVars == {FeedVar} \cup { FcVar(subst[j]) : j \in DOMAIN subst }
+\* the i-th dependent variable is the concentration symbol of the i-th substance, whatever the
+\* order in which the caller's symbols were handed over (observable for create_odesys)
+ExpectedDep(cf) == IF cf.builder = "create_odesys" THEN subst ELSE <<>>
+FcVars == { FcVar(subst[j]) : j \in DOMAIN subst }
 ExpectedParams(cf) ==
     { KName(i) : i \in { j \in DOMAIN rsys : Free(cf, j) } }
-    \cup (IF cf.cstr THEN FeedVars ELSE {})
-    \cup (IF \E i \in DOMAIN rsys : cf.subs[i] \in {"expr", "expruk"} THEN {TVar} ELSE {})
+    \cup (IF cf.cstr THEN FcVars ELSE {})
+    \cup (IF FFree(cf) THEN {FeedVar} ELSE {})
+    \cup (IF GFree(cf) THEN {GVar} ELSE {})
+    \cup (IF NExprSubs(cf) > 0 THEN {TVar} ELSE {})
     \cup (IF \E i \in DOMAIN rsys : AFree(cf, i) THEN {AVar} ELSE {})
 
 \* the rate expression of reaction i: one monomial
 RateTerm(cf, i) ==
     LET r == rsys[i]
         e == Sparse(r.reac)
-    IN  IF Free(cf, i) THEN <<QOne, r.k, e>>
+    IN  IF cf.kinds[i] = "ma_pk" THEN <<QMul(r.kv, GTerm(cf)[1]), 0, EMul(e, GTerm(cf)[2])>>
+        ELSE IF Free(cf, i) THEN <<QOne, r.k, e>>
         ELSE IF cf.subs[i] = "num" THEN <<cf.subvals[i], 0, e>>
         ELSE IF cf.subs[i] \in {"expr", "expruk"} THEN
             IF AFree(cf, i) THEN <<QOne, 0, EMul(e, EMul(EOne(TVar), EOne(AVar)))>>
             ELSE <<cf.aval, 0, EMul(e, EOne(TVar))>>
         ELSE <<r.kv, 0, e>>
 ExpectedRatePoly(cf, i) == PolyNorm(<<RateTerm(cf, i)>>)
+\* feed term F*(cf_s - c_s) with the feed ratio resolved
+FeedPolyCfg(cf, s) == { <<FTerm(cf)[1], 0, EMul(FTerm(cf)[2], EOne(FcVar(s)))>>,
+                        <<QNeg(FTerm(cf)[1]), 0, EMul(FTerm(cf)[2], EOne(s))>> }
 \* the equation of substance s: sum_i N[i][s] * rate_i (+ feed term)
 Term(cf, i, s) == LET t == RateTerm(cf, i) IN <<QMul(Q(Net(rsys[i])[s]), t[1]), t[2], t[3]>>
 ExpectedPoly(cf, s) ==
     LET P == PolyNorm([i \in 1..Len(rsys) |-> Term(cf, i, s)])
-    IN  IF cf.cstr THEN PolyAdd(P, FeedPoly(s)) ELSE P
+    IN  IF cf.cstr THEN PolyAdd(P, FeedPolyCfg(cf, s)) ELSE P
 
 (* binding: the values the free symbols stand for *)
-EffK(cf, i) == IF cf.subs[i] = "num" THEN cf.subvals[i]
+EffK(cf, i) == IF cf.kinds[i] = "ma_pk" THEN QMul(rsys[i].kv, GEff(cf))
+               ELSE IF cf.subs[i] = "num" THEN cf.subvals[i]
                ELSE IF cf.subs[i] \in {"expr", "expruk"} THEN QMul(cf.aval, cf.tval)
                ELSE rsys[i].kv
 EffSys(cf) == [i \in 1..Len(rsys) |-> [rsys[i] EXCEPT !.kv = EffK(cf, i)]]
-ParamEnv(cf) == [v \in {TVar, AVar} |-> IF v = TVar THEN cf.tval ELSE cf.aval]
-\* replace every parameter symbol (free constants, T, a1) by its value; species and feed
-\* variables stay symbolic
+EffFeed(cf) == IF feed.on THEN [feed EXCEPT !.F = FEff(cf)] ELSE feed
+ParamEnv(cf) == [v \in {TVar, AVar, GVar} |-> IF v = TVar THEN cf.tval ELSE IF v = AVar THEN cf.aval ELSE cf.gval]
+FullEnv(cf) == ParamEnv(cf) @@ FeedEnv(feed)
+\* replace every parameter symbol (free constants, T, a1, g, feed variables) by its value;
+\* only the concentrations stay symbolic
 BindMono(cf, m) ==
     LET kf == IF m[2] = 0 THEN QOne ELSE rsys[m[2]].kv
-        pv == DOMAIN m[3] \cap {TVar, AVar}
-        f == QProdOver(pv, LAMBDA v : QPow(ParamEnv(cf)[v], m[3][v]))
+        pv == DOMAIN m[3] \ Species
+        f == QProdOver(pv, LAMBDA v : QPow(FullEnv(cf)[v], m[3][v]))
     IN  <<QMul(QMul(m[1], kf), f), 0, [v \in DOMAIN m[3] \ pv |-> m[3][v]]>>
 BindParams(cf, P) == LET ms == SetToSeq(P) IN PolyNorm([i \in 1..Len(ms) |-> BindMono(cf, ms[i])])
+\* the kinetic model of Kinetics for the effective constants, every parameter a number
+BoundModel(cf, s) ==
+    IF cf.cstr
+    THEN PolyAdd(RatePolyInlined(EffSys(cf), s),
+                 PolyNorm(<< <<QMul(FEff(cf), feed.cf[s]), 0, EmptyMap>>, <<QNeg(FEff(cf)), 0, EOne(s)>> >>))
+    ELSE RatePolyInlined(EffSys(cf), s)
 
 BindEnv(cf) ==
     LET names == ExpectedParams(cf)
     IN  [v \in names |->
-            IF v = TVar THEN cf.tval
-            ELSE IF v = AVar THEN cf.aval
+            IF v \in {TVar, AVar, GVar} THEN ParamEnv(cf)[v]
             ELSE IF v \in DOMAIN FeedEnv(feed) THEN FeedEnv(feed)[v]
             ELSE rsys[CHOOSE i \in DOMAIN rsys : KName(i) = v].kv]
-ExpectedF(cf) == RatesFed(EffSys(cf), c, feed)
+ExpectedF(cf) == RatesFed(EffSys(cf), c, EffFeed(cf))
 ExpectedRVals(cf) == [i \in 1..Len(rsys) |-> RateOf(EffSys(cf)[i], c)]
 
 (* composition balance matrix: rows = sorted keys of the listed substances, columns = substances *)
@@ -139,7 +199,6 @@ ONext == OAdd \/ OState \/ OFeed \/ GenBuild
 OSpec == OInit /\ [][ONext]_ovars
 
 Built == phase = "built"
-Substs == { subst[j] : j \in DOMAIN subst }
 \* Degenerate equations.  C04 quantifies over systems ACCEPTED by the builders; two classes of
 \* systems are refused by the pinned code although the configuration is fine (docs/notes/C04.md):
 \*  - a listed substance on neither side of any reaction (no equation is produced for it),
@@ -158,14 +217,35 @@ MayRefuse(cf) == HasUntouched \/ ConstRHS(cf)
 \* effective constants, as a polynomial identity and (hence) as a value at the state
 FreeVsInlinedAgree == Built =>
     \A s \in Substs :
-        /\ BindParams(cfg, ExpectedPoly(cfg, s)) = RatePolyInlinedFed(EffSys(cfg), s, cfg.cstr)
+        /\ BindParams(cfg, ExpectedPoly(cfg, s)) = BoundModel(cfg, s)
         /\ EvalPoly(ExpectedPoly(cfg, s), VEnv(c, feed) @@ ParamEnv(cfg), KEnv(rsys)) = ExpectedF(cfg)[s]
 
-\* the configuration changes only which symbols are free: with nothing substituted the bound
-\* form is the same polynomial in every accepted configuration
+\* the configuration changes only which symbols are free: with nothing substituted and no
+\* constants object the bound form is Kinetics' polynomial of the system itself (g bound to its
+\* value), whatever the builder, include_params, the parameter kinds or the symbol order
+Plain(cf) == /\ \A i \in DOMAIN rsys : cf.subs[i] = "none"
+             /\ cf.gsub = "none" /\ cf.fsub = "none" /\ cf.consts = <<>>
+BaseSys(cf) == [i \in 1..Len(rsys) |->
+                  [rsys[i] EXCEPT !.kv = IF cf.kinds[i] = "ma_pk" THEN QMul(@, cf.gval) ELSE @]]
 ConfigOnlyChangesFreeSymbols == Built =>
-    ((\A i \in DOMAIN rsys : cfg.subs[i] = "none") =>
-        \A s \in Substs : BindParams(cfg, ExpectedPoly(cfg, s)) = RatePolyInlinedFed(rsys, s, cfg.cstr))
+    (Plain(cfg) =>
+        \A s \in Substs :
+            /\ BindParams(cfg, ExpectedPoly(cfg, s)) =
+                 BindParams(cfg, RatePolyInlinedFed(BaseSys(cfg), s, cfg.cstr))
+            /\ ExpectedF(cfg)[s] = RatesFed(BaseSys(cfg), c, feed)[s])
+
+\* a substitution beats the constants object: the expected system does not depend on what the
+\* constants object says about a substituted key
+SubstitutionBeatsConstants == Built =>
+    LET other == [cfg EXCEPT !.gconst = QAdd(@, QOne), !.fconst = QAdd(@, QOne)]
+    IN  ((cfg.gsub # "none" \/ ~HasG(cfg)) /\ (cfg.fsub # "none" \/ ~cfg.cstr)) =>
+            \A s \in Substs : ExpectedPoly(other, s) = ExpectedPoly(cfg, s)
+
+\* the order in which concentration symbols are handed over is irrelevant
+SymbolOrderIrrelevant == Built =>
+    LET plain == [cfg EXCEPT !.symorder = <<>>]
+    IN  /\ \A s \in Substs : ExpectedPoly(plain, s) = ExpectedPoly(cfg, s)
+        /\ ExpectedParams(plain) = ExpectedParams(cfg) /\ ExpectedDep(plain) = ExpectedDep(cfg)
 
 \* every free constant occurs in the equation of some substance and nothing else does
 ParamsAreTheFreeSymbols == Built =>
@@ -176,7 +256,7 @@ ParamsAreTheFreeSymbols == Built =>
 \* one equation per substance: an untouched substance only sees its feed term
 UntouchedOnlyFeed == Built =>
     \A s \in Untouched(rsys) \cap Substs :
-        ExpectedPoly(cfg, s) = (IF cfg.cstr THEN FeedPoly(s) ELSE {})
+        ExpectedPoly(cfg, s) = (IF cfg.cstr THEN FeedPolyCfg(cfg, s) ELSE {})
 
 RatePolyMatches == Built =>
     \A i \in DOMAIN rsys :
@@ -188,9 +268,13 @@ OTypeOK == phase \in {"build", "ready", "built"} /\ (Built => Accepted(cfg, Len(
 (* case export *)
 CfgOut(cf) == [builder |-> cf.builder, incl |-> cf.incl, kinds |-> cf.kinds, subs |-> cf.subs,
                cstr |-> cf.cstr, comp |-> cf.comp,
-               subvals |-> SubSeq(cf.subvals, 1, Len(rsys)), aval |-> cf.aval, tval |-> cf.tval]
+               subvals |-> SubSeq(cf.subvals, 1, Len(rsys)), aval |-> cf.aval, tval |-> cf.tval,
+               gsub |-> cf.gsub, fsub |-> cf.fsub, consts |-> cf.consts, symorder |-> cf.symorder,
+               gval |-> cf.gval, gsubval |-> cf.gsubval, gconst |-> cf.gconst,
+               fsubval |-> cf.fsubval, fconst |-> cf.fconst]
 OClass == cfg.builder \o (IF cfg.incl THEN "-incl" ELSE "-free")
           \o (IF cfg.cstr THEN "-cstr" ELSE "") \o (IF cfg.comp THEN "-comp" ELSE "")
+          \o (IF cfg.consts # <<>> THEN "-consts" ELSE "") \o (IF cfg.symorder # <<>> THEN "-sym" ELSE "")
           \o (IF HasUntouched THEN "-u" ELSE "") \o (IF ConstRHS(cfg) THEN "-const" ELSE "") \o "-n" \o ToString(Len(rsys))
 OCaseIn == [ subst |-> subst,
              rxns |-> [i \in 1..Len(rsys) |-> RxnOut(rsys[i])],
@@ -201,6 +285,7 @@ OCaseIn == [ subst |-> subst,
              comp |-> [j \in 1..Len(subst) |-> MapSeq(Sparse(Comp[subst[j]]))],
              bind |-> MapSeq(BindEnv(cfg)) ]
 OCaseExp == [ names |-> ExpectedNames,
+              dep |-> ExpectedDep(cfg),
               params |-> SetToSeq(ExpectedParams(cfg)),
               poly |-> BySubst([s \in Species |-> PolyOut(ExpectedPoly(cfg, s))]),
               f |-> BySubst(ExpectedF(cfg)),
